@@ -101,7 +101,7 @@ def embed_basis(base, setting):
     """expected U_full of 'base followed by the per-qubit basis changes of setting'"""
     U = base.U_full.copy()
     internal = set(base._internal_modes)
-    users = [p for p in range(base.n_modes) if p not in internal]
+    users = [p for p in range(base.n_modes) if p not in internal and p not in base.heralds["output"]]     # the qubit rails: visible, not heralded
     n = U.shape[0]
     for k, c in enumerate(setting):
         B = np.eye(n, dtype=complex)
@@ -476,6 +476,14 @@ def _continuous_state_case(nq, k):
             V = _embed(CZ, [a, b], nq) @ V
         steps.append("%s(%d,%d)" % (kind, a, b))
         local_layer()
+    if k % 4 == 3:
+        # the same preparation inside a circuit that carries a herald of its own, declared directly, in front of or behind the qubit modes
+        outer = lw.Circuit(2 * nq + 1)
+        front = (k // 4) % 2 == 0
+        outer.herald((k // 8) % 2, 0 if front else 2 * nq)
+        outer.add(base, 1 if front else 0)
+        base = outer
+        steps.append("own %d-photon herald %s the qubits" % ((k // 8) % 2, "in front of" if front else "behind"))
     desc = "%d qubits, Haar-random local unitaries around %s, #%d" % (nq, steps or "nothing", k)
     psi = V[:, 0]
     rx = np.outer(psi, psi.conj())
